@@ -150,7 +150,7 @@ theorem opOf_range (m : Meta) : opOf m = 1 ∨ opOf m = 2 ∨ opOf m = 3 := by
 /-- the state differs from `st` only by its stack and by the header having been published -/
 def Along (st st' : RSt) : Prop :=
   st'.header = st.header ∧ st'.version = st.version ∧ st'.cur = st.cur ∧ st'.out = st.out ∧
-  st'.commentText = st.commentText ∧ (st'.headerOut = st.headerOut ∨ st'.headerOut = (markDone st).headerOut)
+  st'.commentText = st.commentText ∧ st'.commentPending = st.commentPending ∧ (st'.headerOut = st.headerOut ∨ st'.headerOut = (markDone st).headerOut)
 
 /-- `open_close_op_tag`: from the section of `last` into the section of `op` -/
 theorem opTags_run (last op : Nat) (hop : op = 1 ∨ op = 2 ∨ op = 3) (hl : last ≤ 3) (st : RSt)
@@ -161,7 +161,7 @@ theorem opTags_run (last op : Nat) (hop : op = 1 ∨ op = 2 ∨ op = 3) (hl : la
     intro k hk; unfold NoText sectionCtx; rcases hk with rfl | rfl | rfl <;> simp
   by_cases he : op = last
   · subst he
-    refine ⟨st, ⟨rfl, rfl, rfl, rfl, rfl, Or.inl rfl⟩, ?_, fun tail => by simp [opTagPieces]⟩
+    refine ⟨st, ⟨rfl, rfl, rfl, rfl, rfl, rfl, Or.inl rfl⟩, ?_, fun tail => by simp [opTagPieces]⟩
     rw [hs]; unfold stackOf
     rcases hop with rfl | rfl | rfl <;> simp
   · -- close the old section (if any), open the new one
@@ -222,10 +222,10 @@ def blockResult (o : Opts) (objs : List Object) (st : RSt) : RSt :=
 
 theorem blockResult_step (o : Opts) (st st' : RSt) (hal : Along st st') (obj : Object) (objs : List Object) :
     blockResult o objs { markDone st' with out := project o obj :: st'.out } = blockResult o (obj :: objs) st := by
-  rcases st with ⟨stack, header, version, headerOut, cur, out, ct⟩
-  rcases st' with ⟨stack', header', version', headerOut', cur', out', ct'⟩
-  obtain ⟨h1, h2, h3, h4, h5, h6⟩ := hal
-  simp only at h1 h2 h3 h4 h5 h6
+  rcases st with ⟨stack, header, version, headerOut, cur, out, ct, cp⟩
+  rcases st' with ⟨stack', header', version', headerOut', cur', out', ct', cp'⟩
+  obtain ⟨h1, h2, h3, h4, h5, h5', h6⟩ := hal
+  simp only at h1 h2 h3 h4 h5 h5' h6
   by_cases hn : objs = []
   · cases headerOut <;> cases headerOut' <;> simp_all [blockResult, markDone]
   · cases headerOut <;> cases headerOut' <;> simp_all [blockResult, markDone]
@@ -294,7 +294,7 @@ theorem block_run (o : Opts) : ∀ (objs : List Object) (_ : ∀ obj ∈ objs, X
       refine ⟨ps ++ qs, by simp [blockPieces, hco, hps, hqs], ?_⟩
       rw [List.append_assoc, runPieces_append, hrun]
       simp only [bindE_ok]
-      rw [hrun2, blockResult_step o st st ⟨rfl, rfl, rfl, rfl, rfl, Or.inl rfl⟩]
+      rw [hrun2, blockResult_step o st st ⟨rfl, rfl, rfl, rfl, rfl, rfl, Or.inl rfl⟩]
     · -- change file
       have hs' : st.stack = stackOf { changeOps := true } last := by rw [hs]; simp [stackOf, hco, rootCtx]
       obtain ⟨st', hal, hst', hrunT⟩ := opTags_run last (opOf (objMeta obj)) hrange hl st hs'
